@@ -448,7 +448,16 @@ def _norm_tree_obs(case, o):
     return {"errs": o["errs"], "rclean": None, "res": res}
 
 
+def _norm(case):
+    """router cases of earlier rounds (regs then reqs) as histories"""
+    if case.get("kind") == "router" and "ops" not in case:
+        return {"kind": "router", "nf": case.get("nf", False),
+                "ops": [dict(r, op="reg") for r in case.get("regs", [])] + [dict(r, op="req") for r in case.get("reqs", [])]}
+    return case
+
+
 def drive(cases, tier):
+    cases = [_norm(c) for c in cases]
     idx_r = [i for i, c in enumerate(cases) if c["kind"] == "router"]
     idx_t = [i for i, c in enumerate(cases) if c["kind"] == "tree"]
     idx_e = [i for i, c in enumerate(cases) if c["kind"] == "engine"]
@@ -504,6 +513,7 @@ def _m(m):
 
 
 def encode(case, obs):
+    case = _norm(case)
     if "driver_panic" in obs or "error" in obs:
         # unparsable observation: a case no checker accepts
         return "mkcase false false [] [1] [] [] [] [] None []"
@@ -568,6 +578,7 @@ def _res(case, obs):
 
 
 def _req_rows(case, obs):
+    case = _norm(case)
     """(request, result) pairs with status / hids / vars present"""
     if case["kind"] == "tree":
         return list(zip(case["reqs"], _norm_tree_obs(case, obs)["res"]))
@@ -586,6 +597,7 @@ def _segs(clean):
 
 
 def bucket(case, obs):
+    case = _norm(case)
     out = ["kind:" + case["kind"]]
     rows = _req_rows(case, obs)
     for _, r in rows:
@@ -681,16 +693,21 @@ def shrink(v):
         bad, obs = _spec_fails(cands)
         if bad:
             cur, cur_obs = cands[bad[0]], obs[bad[0]]
-        for _ in range(14):
-            body = cur["ops"][:-1]
-            cands = [dict(cur, ops=body[:j] + body[j + 1:] + cur["ops"][-1:]) for j in range(len(body))]
-            if len(cands) > 60:
-                # many ops: try dropping all requests before the last one at once
-                cands.insert(0, dict(cur, ops=[o for o in body if o["op"] == "reg"] + cur["ops"][-1:]))
-            bad, obs = _spec_fails(cands)
-            if not bad:
+        # delta debugging on the ops before the failing request (order kept)
+        body, last, n = cur["ops"][:-1], cur["ops"][-1:], 2
+        for _ in range(30):
+            if not body:
                 break
-            cur, cur_obs = cands[bad[0]], obs[bad[0]]
+            chunk = -(-len(body) // n)
+            cands = [dict(cur, ops=body[:k] + body[k + chunk:] + last) for k in range(0, len(body), chunk)]
+            bad, obs = _spec_fails(cands)
+            if bad:
+                cur, cur_obs = cands[bad[0]], obs[bad[0]]
+                body, n = cur["ops"][:-1], max(n - 1, 2)
+            elif chunk == 1:
+                break
+            else:
+                n = min(len(body), n * 2)
         return {"case": cur, "obs": cur_obs}
     cands = [dict(case, reqs=[q]) for q in case["reqs"]]
     bad, obs = _spec_fails(cands)
